@@ -6,7 +6,7 @@ Definition tbl_StrExactMatch : list str := [[101;120;97;99;116]%N; [99;97;115;10
 Definition tbl_StrGlobMatch : list str := [[103;108;111;98]%N; [112;114;101;102;105;120]%N; [110;101;103;97;116;101]%N; [102;108;97;103;115]%N].
 Definition tbl_StrRegex : list str := [[114;101;103;101;120]%N; [110;101;103;97;116;101]%N; [102;108;97;103;115]%N; [105;115;109;97;116;99;104]%N].
 Definition tbl_ContainmentMatch : list str := [[118;97;108;115]%N; [97;108;108]%N; [110;101;103;97;116;101]%N].
-Definition tbl_PackageRestriction : list str := [[95;95;99;108;97;115;115;95;95]%N; [110;101;103;97;116;101]%N; [97;116;116;114]%N; [114;101;115;116;114;105;99;116;105;111;110]%N].
+Definition tbl_PackageRestriction : list str := [[95;95;99;108;97;115;115;95;95]%N; [110;101;103;97;116;101]%N; [95;97;116;116;114;95;115;112;108;105;116]%N; [114;101;115;116;114;105;99;116;105;111;110]%N].
 Definition tbl_Conditional : list str := [[95;95;99;108;97;115;115;95;95]%N; [110;101;103;97;116;101]%N; [97;116;116;114]%N; [114;101;115;116;114;105;99;116;105;111;110]%N; [112;97;121;108;111;97;100]%N].
 Definition tbl_boolean_base : list str := [[95;95;99;108;97;115;115;95;95]%N; [110;101;103;97;116;101]%N; [116;121;112;101]%N; [114;101;115;116;114;105;99;116;105;111;110;115]%N].
 Definition tbl_atom : list str := [[99;112;118;115;116;114]%N; [111;112]%N; [98;108;111;99;107;115]%N; [110;101;103;97;116;101;95;118;101;114;115]%N; [117;115;101]%N; [115;108;111;116]%N; [115;117;98;115;108;111;116]%N; [115;108;111;116;95;111;112;101;114;97;116;111;114]%N; [114;101;112;111;95;105;100]%N].
